@@ -179,6 +179,12 @@ pub trait Engine: Sync {
     fn components_real(&self) -> Vec<&'static str>;
     fn components_stub(&self) -> Vec<&'static str>;
     fn assumptions(&self) -> Vec<&'static str>;
+    /// Start every run in a fresh worker process, so that process-wide state cannot carry
+    /// over from an earlier run (one run = one process history; needed for replayability
+    /// of history-dependent failures)
+    fn fresh_process_per_run(&self) -> bool {
+        false
+    }
     /// CPU seconds one run may use before it is a hang
     fn cpu_budget_s(&self, _tier: Tier) -> f64 {
         10.0
